@@ -58,6 +58,9 @@ def main():
         elif "fb" not in done and any(e["ev"] == "fb" for e in h):
             r["h"] = [e for e in h if e["ev"] != "fb"]
             done.add("fb"); bad[r["scn"]] = "C02"
+        elif "seen" not in done and sum(1 for e in h if e["ev"] == "prep") >= 2:
+            [e for e in h if e["ev"] == "prep"][1]["seen"] += 1          # a node that did not see what the previous one stored
+            done.add("seen"); bad[r["scn"]] = "C01"
         elif "ret" not in done and any(e["ev"] == "runret" and e["iserr"] for e in h):
             for e in h:
                 if e["ev"] == "runret":
